@@ -1,6 +1,8 @@
 package client
 
 import (
+	"bytes"
+	"errors"
 	"fmt"
 
 	"github.com/jcmturner/gokrb5/v8/kadmin"
@@ -37,6 +39,12 @@ func (cl *Client) ChangePasswd(newPasswd string) (bool, error) {
 	r, err := cl.sendToKPasswd(msg)
 	if err != nil {
 		return false, err
+	}
+	// The request and the reply are protected with the same key and key usage.
+	// The request's own KRB_PRIV sent back as the reply decrypts correctly but does not come from the server,
+	// and its user data is the new password, which must not end up in the error text below.
+	if !r.IsKRBError && bytes.Equal(r.KRBPriv.EncPart.Cipher, msg.KRBPriv.EncPart.Cipher) {
+		return false, errors.New("reply from the kpasswd server is a reflection of the request")
 	}
 	err = r.Decrypt(key)
 	if err != nil {
